@@ -31,6 +31,17 @@ def scenarios(tier):
     cw1, cw2 = cheat_worlds()
     L.append((SC.scn("log-cheat-uptodate-j2", cw1, ["redo -j2 b a c"], visible=SC.TOKENS + ["lock-try"], log_mode=True), 1 if q else 2))
     L.append((SC.scn("log-cheat-builds-j2", cw2, ["redo -j2 b a c"], visible=SC.TOKENS + ["lock-try"], log_mode=True), 0 if q else 2))
+    # (7) a long wait for a token (no log capture, so no cheating): a's chain builds x, b's redo-ifchange hands its token
+    # back while it waits for x, c takes it; x finishes, but a and c go on working for 80 more polling intervals of the
+    # waiting process (its back-off doubles every time).  Default schedule only: the dimension explored is time.
+    from ..worlds import S, World
+    lw = World("long-wait", {"s": ["0", "1"]},
+               {"x.do": [S(deps=["s"], sync=(("start", "set", "x-started"), ("mid", "wait", "c-started")))],
+                "a.do": [S(deps=["x"], sync=(("mid", "sleep", "80"),))],
+                "b.do": [S(deps=["x"], sync=(("start", "wait", "x-started"),))],
+                "c.do": [S(deps=["s"], out="file", sync=(("start", "set", "c-started"), ("mid", "sleep", "80")))]},
+               ["a", "b", "c", "x"], ["a", "b", "c"])
+    L.append((SC.scn("long-wait-for-a-token-j2", lw, ["redo --no-log -j2 b a c"], visible=SC.TOKENS + ["lock-try"], max_steps=6000), 0))
     if not q:
         L.append((SC.scn("fan3x2-j3", w["fan3x2"], ["redo --no-log -j3 t1 t2"], visible=SC.TOKENS), 2))
         L.append((SC.scn("failfan-j2", w["failfan"], ["redo --no-log -j2 top"], visible=SC.TOKENS), 2))
